@@ -276,4 +276,49 @@ theorem total_elementalFrom_pruned (θ : Rat) (hθ : 0 ≤ θ) (isos : Dist κ) 
 
 end
 
+/-! ### the element loop with rounding, un-pruned: accumulated shift of the first moment -/
+
+/-- the element loop with rounding at resolution `r`, no pruning (threshold 0 on positive abundances, floor off, no
+`max_isotopes`): the first moment is within `(number of elements)·½·10^-r · Σ` of the un-rounded value -/
+theorem moment_convolveList_round (r : Nat) (L : List (Dist Rat × Nat)) (d : Dist Rat) (hL : ListPos L) (hd : AllPos d)
+    (h1 : ∀ x ∈ L, total x.1 = 1) :
+    |moment (convolveList (roundOpt (some (r : Int))) (some 0) none none L d) - (moment d + total d * momentSum L)|
+      ≤ (L.length : Rat) * (1 / 2 / (10 : Rat) ^ r) * total d := by
+  induction L generalizing d with
+  | nil => simp [convolveList, momentSum]
+  | cons x t ih =>
+    obtain ⟨isos, n⟩ := x
+    have hi : AllPos isos := hL (isos, n) (List.mem_cons_self ..)
+    have hT : total isos = 1 := h1 (isos, n) (List.mem_cons_self ..)
+    have he : AllPos (elemental none isos n) :=
+      allPos_elementalFrom none isos n _ hi (by intro p hp; simp at hp; subst hp; decide)
+    have hte : total (elemental none isos n) = 1 := by
+      unfold elemental; rw [total_elementalFrom, hT]; simp [total]
+    have hme : moment (elemental none isos n) = n * moment isos := by
+      unfold elemental; rw [moment_elementalFrom _ _ _ hT]; simp [total, moment]
+    have hk := allKept_zero _ _ hd he
+    have hstep := moment_convolve_round (roundOpt (some (r : Int))) _ (fun x => roundTo_err r x) (some 0)
+      d (elemental none isos n) (nonNeg_of_allPos hd) (nonNeg_of_allPos he)
+    rw [moment_convolve _ _ _ hk, total_convolve _ _ _ _ hk, hte, hme] at hstep
+    have htot : total (convolve (roundOpt (some (r : Int))) (some 0) none d (elemental none isos n)) = total d := by
+      rw [total_convolve _ _ _ _ hk, hte, mul_one]
+    have hrec := ih _ (fun y hy => hL y (List.mem_cons_of_mem _ hy))
+      (allPos_convolve (roundOpt (some (r : Int))) (some 0) none _ _ hd he)
+      (fun y hy => h1 y (List.mem_cons_of_mem _ hy))
+    rw [htot] at hrec
+    simp only [convolveList, momentSum, List.length_cons]
+    obtain ⟨a1, a2⟩ := abs_le.1 hstep
+    obtain ⟨b1, b2⟩ := abs_le.1 hrec
+    rw [abs_le]
+    push_cast
+    constructor <;> nlinarith
+
+theorem totalProd_one (L : List (Dist Rat × Nat)) (h1 : ∀ x ∈ L, total x.1 = 1) : totalProd L = 1 := by
+  induction L with
+  | nil => rfl
+  | cons x r ih =>
+    obtain ⟨isos, n⟩ := x
+    simp only [totalProd, h1 (isos, n) (List.mem_cons_self ..), one_pow, one_mul]
+    exact ih (fun y hy => h1 y (List.mem_cons_of_mem _ hy))
+
 end Isotope
